@@ -28,16 +28,27 @@ LEVEL_NOTE = "Trusted: Pygments token stream as the definition of 'between the t
 CORPUS = core.VERIF / "corpus"
 
 
+WIDE = 70_000  # one very wide comment (an inlined source map, a generated banner): wider than any 16-bit column
+HEAVY = {"wide-line", "trail-wide"}  # not part of the all-at-once variants (a file of nothing but 70 kB lines)
+
+
 def kinds(lang):
     """(id, mode, text)  mode: 'line' = new line inserted, 'trail' = appended to the line before the boundary"""
     ks = [("blank", "line", ""), ("spaces", "line", "      "), ("tab", "line", "\t")]
     if lang == "Python":
         ks += [("hash0", "line", "# inserted comment ( {"), ("hash-ind", "line", "        # inserted comment } )"),
-               ("trail-hash", "trail", "  # trailing { comment"), ("trail-spaces", "trail", "   ")]
+               ("trail-hash", "trail", "  # trailing { comment"), ("trail-spaces", "trail", "   "),
+               # a comment that MENTIONS the suppression marker later in its text does not start with it
+               ("trail-mention", "trail", "  # was marked nocl before the refactoring"),
+               ("wide-line", "line", "# sourceMappingURL=data:application/json;base64," + "QUJD" * (WIDE // 4)),
+               ("trail-wide", "trail", "  # " + "w" * WIDE)]
         return ks
     ks += [("slash0", "line", "// inserted comment ( {"), ("slash-ind", "line", "        // inserted } ) comment"),
            ("block0", "line", "/* inserted { ( comment */"), ("block-ind", "line", "    /* inserted } */"),
-           ("trail-slash", "trail", " // trailing { comment"), ("trail-block", "trail", " /* trailing ( */"), ("trail-spaces", "trail", "   ")]
+           ("trail-slash", "trail", " // trailing { comment"), ("trail-block", "trail", " /* trailing ( */"), ("trail-spaces", "trail", "   "),
+           ("trail-mention", "trail", " // was marked nocl before the refactoring"), ("trail-mention-block", "trail", " /* not a nocl marker */"),
+           ("wide-line", "line", "//# sourceMappingURL=data:application/json;base64," + "QUJD" * (WIDE // 4)),
+           ("trail-wide", "trail", " /* " + "w" * WIDE + " */")]
     return ks
 
 
@@ -140,6 +151,8 @@ def enum_single(fc: FileCtx, kind_ids=None):
 
 def enum_all_at_once(fc: FileCtx):
     for kid, mode, t in kinds(fc.lang):
+        if kid in HEAVY:
+            continue
         pts = sorted(fc.line_safe if mode == "line" else fc.trail_safe)
         if pts:
             yield [(b, mode, t, kid) for b in pts]
